@@ -428,18 +428,19 @@ impl Hypercore {
 
         // Find byte offset for first value
         let mut infos: Vec<StoreInfo> = Vec::new();
-        let clear_offset = match self.tree.byte_offset(start, None)? {
-            Either::Right(value) => value,
-            Either::Left(instructions) => {
-                let new_infos = self.storage.read_infos_to_vec(&instructions).await?;
-                infos.extend(new_infos);
-                match self.tree.byte_offset(start, Some(&infos))? {
-                    Either::Right(value) => value,
-                    Either::Left(_) => {
-                        return Err(HypercoreError::InvalidOperation {
-                            context: format!("Could not read offset for index {start} from tree"),
-                        });
-                    }
+        // The nodes that are needed can change between passes when a small node cache evicts
+        // entries, so keep reading until the offset can be computed from what has been read.
+        let clear_offset = loop {
+            let read_so_far = if infos.is_empty() {
+                None
+            } else {
+                Some(infos.as_slice())
+            };
+            match self.tree.byte_offset(start, read_so_far)? {
+                Either::Right(value) => break value,
+                Either::Left(instructions) => {
+                    let new_infos = self.storage.read_infos_to_vec(&instructions).await?;
+                    infos.extend(new_infos);
                 }
             }
         };
